@@ -794,28 +794,39 @@ func checkGetters(conf config.Config, key, val string, present bool, d Defaults,
 			return fmt.Errorf("GetIntSet(%q, %q, %q) = %v, want the set %v (value %q)", key, d.Set, d.Deli, gotSet, asSet(ints), tv)
 		}
 	} else {
-		// Some token is not an integer: whether it is skipped or the default is used
-		// instead is not stated; but nothing may appear that is neither an integer
-		// of the value nor of the default.
+		// Some token is not an integer. The statement leaves two readings: the malformed element is skipped (every
+		// well-formed element of the value is visible), or the value as a whole is malformed (the supplied default is
+		// used). The result must be one of the two; in particular it may not be a part of the value (the elements before
+		// the malformed one, say). A token that is an integer but does not fit 32 bits may or may not contribute its
+		// wrapped image (not stated for the set getter).
 		classes["intset:some-token-malformed"] = true
 		dt, _ := splitTokens(d.Set, d.Deli)
-		dints, _ := intsOf(dt)
-		allowed := map[int32]bool{}
-		for _, x := range append(ints, dints...) {
-			allowed[x] = true
-		}
-		// A token that is an integer but does not fit 32 bits: whether it counts as
-		// malformed is not stated for the set getter; its wrapped image is tolerated.
-		for _, tk := range append(append([]string{}, tokens...), dt...) {
-			if n, err := strconv.ParseInt(tk, 10, 64); err == nil && int64(int32(n)) != n {
-				allowed[int32(n)] = true
-				classes["intset:token-beyond-32-bits(not asserted)"] = true
+		reading := func(toks []string) bool {
+			must, may := map[int32]bool{}, map[int32]bool{}
+			for _, tk := range toks {
+				if n, err := strconv.ParseInt(tk, 10, 32); err == nil {
+					must[int32(n)] = true
+				} else if n, err := strconv.ParseInt(tk, 10, 64); err == nil {
+					may[int32(n)] = true
+					classes["intset:token-beyond-32-bits(not asserted)"] = true
+				}
 			}
-		}
-		for _, x := range gotSet {
-			if !allowed[x] {
-				return fmt.Errorf("GetIntSet(%q, %q, %q) = %v contains %d, which is neither in the value %q nor in the default", key, d.Set, d.Deli, gotSet, x, tv)
+			got := map[int32]bool{}
+			for _, x := range gotSet {
+				got[x] = true
+				if !must[x] && !may[x] {
+					return false
+				}
 			}
+			for x := range must {
+				if !got[x] && !may[x] {
+					return false
+				}
+			}
+			return true
+		}
+		if !reading(tokens) && !reading(dt) {
+			return fmt.Errorf("GetIntSet(%q, %q, %q) = %v for the value %q with a malformed element: neither the well-formed elements of the value %v nor those of the default", key, d.Set, d.Deli, gotSet, tv, asSet(ints))
 		}
 	}
 	// string array
